@@ -45,6 +45,7 @@ func (st *State) checkWrite(o *Obj) {
 }
 
 type deferRec struct {
+	site ssa.Instruction // the defer statement
 	call *ssa.CallCommon
 	args []Val
 	fnv  Val
@@ -701,6 +702,9 @@ func (ex *Exec) readElem(st *State, d ArrData, elem types.Type, idx *Term) Val {
 		}
 		ex.assumeValid(st, v, a.Elem, 0)
 		a.Known[k] = v
+		if a.ElemInv != nil && !a.Dirty {
+			a.ElemInv(st, v)
+		}
 		if a.Idx == nil {
 			a.Idx = map[string]*Term{}
 		}
@@ -752,6 +756,7 @@ func (ex *Exec) writeElem(st *State, d ArrData, elem types.Type, idx *Term, v Va
 		}
 		n.Idx[idx.String()] = idx
 		n.Dirty = true
+		n.ElemInv = nil
 		return n
 	}
 	panic(abortf("writeElem: %T", d))
